@@ -8,7 +8,8 @@ open YaegiVerif.Method
     method at the shallowest depth), 837b81e (several methods at the shallowest depth: ambiguous),
     efcbde2 (method depth compared with the field depth), a60b058 (fields promoted through embedded
     fields only, shallowest first), 3081633 (receiver bound when the method value is made),
-    16a5ac7 (a value stored in an interface is copied) -/
+    16a5ac7 (a value stored in an interface is copied), 32d4f06 (the receiver of a method selected on
+    the value held by an interface is reached at each call) -/
 def facts : Facts :=
   { defaultSwap := false,
     clauseChain := .nextTest,
@@ -20,8 +21,15 @@ def facts : Facts :=
     methodWinsCond := "d >= 0 && d < len(ti)-1 => { goto tryMethods }",
     ambiguousCond := "d == len(ti)-1",
     fieldDepthMinus := 1,
-    recvBind := { atCreation := true, ptrToVal := .set, valToPtr := .slot, same := .set, call := .set },
+    recvBind := { atCreation := true, ptrToVal := .set, valToPtr := .slot, same := .set, call := .set,
+                  lateNilNode := true, lateCall := .set, ifaceWrapHeld := true },
     ifaceCopies := true }
+
+/-- the receiver binding between 3081633 and 32d4f06 (finding F05-18, fixed): every receiver read when
+    the wrapper is made, the wrappers of an interface conversion made over the converted expression;
+    only regression examples refer to it -/
+def earlyIfaceFacts : Facts :=
+  { facts with recvBind := { facts.recvBind with lateNilNode := false, lateCall := .slot, ifaceWrapHeld := false } }
 
 /-- the values the facts had before those repairs (findings F04, F05, F05-1, F05-2, F05-3, F05-6,
     F05-16, all fixed); only the `…_old_witness` theorems and regression examples refer to them -/
@@ -36,7 +44,8 @@ def oldFacts : Facts :=
     methodWinsCond := "d >= 0 && d < len(ti) => { goto tryMethods }",
     ambiguousCond := "d == len(ti)",
     fieldDepthMinus := 0,
-    recvBind := { atCreation := false, ptrToVal := .set, valToPtr := .set, same := .set, call := .slot },
+    recvBind := { atCreation := false, ptrToVal := .set, valToPtr := .set, same := .set, call := .slot,
+                  lateNilNode := false, lateCall := .slot, ifaceWrapHeld := false },
     ifaceCopies := false }
 
 def oldDefaultSwap : Bool := oldFacts.defaultSwap
@@ -66,7 +75,9 @@ def sourceHashes : List (String × String) :=
    ("getMethodByName", "f50f4b6cbd60d2d3"),
    ("lookupMethodValue", "375ef5678906848e"),
    ("stripReceiverFromArgs", "bb4ae1a98125a1a0"),
-   ("genFunctionWrapper", "d3025d79ab731dcf"),
+   ("genFunctionWrapper", "033ce6ccd17871ac"),
+   ("genInterfaceWrapper", "3467ccc00694c19f"),
+   ("copyDeferArg", "d8586ba1ea695e54"),
    ("typecheck.typeAssertionExpr", "c9bf8687572eccaf"),
    ("genDestValue", "6d332c89aa45b5ab"),
    ("genValueInterface", "1ef4b98ccbd7c706"),
@@ -74,6 +85,6 @@ def sourceHashes : List (String × String) :=
    ("cfg.go case selectorExpr", "768dfe88e453fb73"),
    ("cfg.go pre-order case switchStmt, typeSwitch", "773e4a50ec016090"),
    ("cfg.go post-order case switchStmt", "dd29a2c95d07e79f"),
-   ("genFunctionWrapper receiver binding", "f81cf9e7a65adbf0")]
+   ("genFunctionWrapper receiver binding", "0eced356b3dccc81")]
 
 end YaegiVerif.Expected.C05
